@@ -20,8 +20,18 @@ META = {
 
 def plan(tier, seed, scale):
     n = max(1, int(len(SCEN) * min(scale, 1)))
-    return conc.plan_scenarios(n, tier, seed, per=max(1, (n + 15) // 16))
+    shards = conc.plan_scenarios(n, tier, seed, per=max(1, (n + 15) // 16))
+    # random request tuples on random reachable states
+    n_rand = int((32 if tier == 'quick' else 1600) * scale)
+    per = 4 if tier == 'quick' else 100
+    for i in range(0, n_rand, per):
+        shards.append({'seed': seed, 'first': i,
+                       'count': min(per, n_rand - i), 'tier': tier,
+                       'hashseed': (i // per) % 3, 'random': True})
+    return shards
 
 
 def run_shard(spec, res):
+    if spec.get('random'):
+        return conc.run_random('C05', spec, res, use_serial=True)
     conc.run_scenarios('C05', SCEN, spec, res)
